@@ -24,14 +24,21 @@ Addr == {"pub4", "priv4", "loop4", "pub6", "ula6"}
 Net  == {"n10", "n127", "nfc", "npub4", "npub6"}
 InNet(a, n) == \/ (a = "priv4" /\ n = "n10") \/ (a = "loop4" /\ n = "n127") \/ (a = "ula6" /\ n = "nfc")
                \/ (a = "pub4" /\ n = "npub4") \/ (a = "pub6" /\ n = "npub6")
-Forms == {"lit", "mapped", "zone", "bare", "nobracket", "name", "blockedname", "garbage", "empty"}
+\* blockedname / blockedlit: a name / an IP literal whose host text a configured domain pattern matches.  pm says how:
+\* "whole" - the pattern describes the entire host;  "part" - it matches a proper part of it only (an unanchored pattern inside a longer
+\* name, a "^prefix" or "suffix$" pattern).  Patterns are SEARCHED in the host (regexp MatchString), so both are matches.
+Forms == {"lit", "mapped", "zone", "bare", "nobracket", "name", "blockedname", "blockedlit", "garbage", "empty"}
+Blocked == {"blockedname", "blockedlit"}
 Ports == {"ok", "empty", "oversized", "nonnumeric", "negative", "missing"}
 NoAddr == "none"
 
 \* input: form of the host part, port class, address the literal denotes (lit/mapped/zone/bare/nobracket) or the name's answers
-Inputs == [form : Forms, port : Ports, addr : Addr, answers : {<<a>> : a \in Addr} \cup {<<a, b>> : a, b \in Addr} \cup {<<>>}]
+Inputs == [form : Forms, port : Ports, addr : Addr, answers : {<<a>> : a \in Addr} \cup {<<a, b>> : a, b \in Addr} \cup {<<>>},
+           pm : {"whole", "part"}]
 Policies == [block : SUBSET {"n10", "n127", "nfc"}, allow : {{}, {"npub4"}, {"npub4", "npub6"}, {"n10"}}, patterns : BOOLEAN]
 
+CONSTANT MatchMode      \* "search": a pattern matches a host if it matches any part of it (what the property demands);
+                        \* "full": only if it matches the entire host (a broken instance: must violate CheckedIsPermitted)
 CONSTANT StoreLiteral   \* TRUE: ingest stores the checked literal (intended); FALSE: it keeps the client's string and the
                         \* dial resolves it again (DNS rebinding window) - used to show the invariants are not vacuous
 
@@ -39,11 +46,15 @@ VARIABLES inp, pol, pc, lookups, resolved, result, stored, dialed, obs
 vars == <<inp, pol, pc, lookups, resolved, result, stored, dialed, obs>>
 
 IsName(i) == i.form \in {"name", "blockedname"}
+PatternHits(i) == i.form \in Blocked                                   \* by construction of the input
+PatternApplied(i) == i.form \in Blocked /\ (MatchMode = "search" \/ i.pm = "whole")
 Permitted(a, p) == IF p.allow # {} THEN \E n \in p.allow : InNet(a, n)
                    ELSE ~\E n \in p.block : InNet(a, n)
 
 Init == /\ inp \in Inputs /\ pol \in Policies
         /\ (IsName(inp) \/ inp.answers = <<>>)            \* answers only matter for names
+        /\ (inp.pm = "whole" \/ inp.form \in Blocked)     \* pm only matters for hosts a pattern hits
+        /\ (inp.form = "blockedlit" => inp.pm = "part")   \* patterns for literals are prefixes of the address text
         /\ pc = "parse" /\ lookups = 0 /\ resolved = NoAddr /\ result = NoAddr /\ stored = NoAddr /\ dialed = NoAddr
         /\ obs = [a |-> "Init"]
 
@@ -54,7 +65,7 @@ Go(next) == /\ pc' = next /\ obs' = [a |-> next] /\ UNCHANGED <<inp, pol, lookup
 Parse == /\ pc = "parse"
          /\ IF inp.form \in {"bare", "nobracket", "garbage", "empty"} \/ inp.port = "missing" THEN Reject("parse") ELSE Go("domain")
 Domain == /\ pc = "domain"
-          /\ IF pol.patterns /\ inp.form = "blockedname" THEN Reject("domain") ELSE Go("port")
+          /\ IF pol.patterns /\ PatternApplied(inp) THEN Reject("domain") ELSE Go("port")
 Port == /\ pc = "port"
         /\ IF inp.port # "ok" THEN Reject("port") ELSE Go("resolve")
 Resolve == /\ pc = "resolve"
@@ -87,12 +98,13 @@ Spec == Init /\ [][Next]_vars
 DialedIsChecked == dialed # NoAddr => (dialed = stored /\ stored = result /\ result = resolved)
 \* whatever is accepted lies outside every blocklisted subnet (inside the allowlist when one is configured) and its
 \* host did not match a blocklisted pattern
-CheckedIsPermitted == (result \in Addr) => (Permitted(result, pol) /\ ~(pol.patterns /\ inp.form = "blockedname"))
+CheckedIsPermitted == (result \in Addr) => (Permitted(result, pol) /\ ~(pol.patterns /\ PatternHits(inp)))
 \* names are resolved once, at admission
 ResolvedOnce == lookups <= 1
 \* a well-formed permitted literal is accepted, and as the same address
 PermittedLiteralAccepted ==
-  (pc = "done" /\ inp.form \in {"lit", "mapped", "zone"} /\ inp.port = "ok" /\ Permitted(inp.addr, pol)) => dialed = inp.addr
+  (pc = "done" /\ (inp.form \in {"lit", "mapped", "zone"} \/ (inp.form = "blockedlit" /\ ~pol.patterns))
+     /\ inp.port = "ok" /\ Permitted(inp.addr, pol)) => dialed = inp.addr
 \* nothing malformed is ever accepted
 MalformedRejected == (pc = "done" /\ (inp.form \in {"bare", "nobracket", "garbage", "empty"} \/ inp.port # "ok")) => result = "rejected"
 =============================================================================
